@@ -118,3 +118,157 @@ def run(prog, scope_units=None, rule="R-LENCLASS", exceptions=EXCEPT):
     res.counts["with_typed_length"] = typed
     res.floor("allocation / block sites with a typed length", typed, 25 if not scope_units else 3)
     return res
+
+
+CAPS = {"ILLlpdata::rowsize": "nrows", "ILLlpdata::colsize": "ncols", "ILLlpdata::structsize": "nstruct"}
+DIMS3 = ("nrows", "ncols", "nstruct")
+CAP_EXCEPT = {("mpq_ILLlp_add_logicals", "colnames"): "grown to colsize + nrows entries so that the logicals can be named; at this point of the "
+                                                      "conversion colsize == structsize == the number of structural columns"}
+
+
+def run_capacity(prog, rule="R-CAPACITY"):
+    """The appending edit functions write slot [count] of every per-row / per-column array whenever count < capacity and
+    re-allocate all arrays of a capacity together when it is exhausted.  So every array that is (re)allocated somewhere with
+    a length taken from a capacity field (rowsize / colsize / structsize) must have at least that capacity wherever else
+    it is allocated: with the capacity field in its length, or in a function (or a direct callee of one) that sets the
+    capacity field to the very dimension it allocates with.  The governed arrays are discovered from the allocation sites
+    (sibling agreement), not listed."""
+    res = RuleResult(rule, "an array governed by a capacity field (some allocation site sizes it by rowsize / colsize / structsize) is never "
+                           "allocated with only the current count, unless the capacity is set to that count alongside")
+    sites = []          # (f, field, loc, mentions:set of 'cap:<field>' / 'dim:<field>')
+    capset = collections.defaultdict(set)     # function key -> {(capacity field, dimension it is set to)}
+    dimeq = collections.defaultdict(set)      # function key -> {frozenset(d1, d2)}: dimensions set equal there
+    for f in sorted(prog.funcs.values(), key=lambda x: x.key):
+        if not f.unit.startswith("qsopt_ex/") or "_dbl." in f.unit or "_mpf." in f.unit or f.live is None:
+            continue
+        if any(u in f.unit for u in OUT_OF_SCOPE_UNITS):
+            continue
+        szinit = collections.defaultdict(list)
+        byloc = collections.defaultdict(list)
+        localinit = collections.defaultdict(list)
+        for b, i, e in f.elements():
+            if e[0] == "D":
+                for n, init in e[1]:
+                    if init is not None:
+                        localinit[n].append(init)
+                        if n.startswith("__"):
+                            szinit[n].append(init)
+                            byloc[e[2].rsplit(":", 1)[0]].append(init)
+            elif e[0] == "A" and e[1][1] == "=" and is_var(e[1][2], kind="l"):
+                localinit[strip(e[1][2])[2]].append(e[1][3])
+
+        def mentions(t, depth=0):
+            out = set()
+            for nd in walk(t):
+                if not isinstance(nd, list) or not nd:
+                    continue
+                if nd[0] == "m":
+                    fld = nd[2]
+                    rec, nm = fld.split("::")
+                    for cap, dim in CAPS.items():
+                        if fld.endswith(cap):
+                            out.add("cap:" + cap.split("::")[1])
+                    if rec.endswith("ILLlpdata") and nm in DIMS3:
+                        out.add("dim:" + nm)
+                elif nd[0] == "v" and depth < 3 and nd[2] in localinit and (nd[2].startswith("__") or len(localinit[nd[2]]) == 1):
+                    for init in localinit[nd[2]]:
+                        out |= mentions(init, depth + 1)
+            return out
+        # EGlpNumReallocArray (&(lp->F), size): expands to  __ptr__ = &(lp->F); __sz__ = size; ... *__ptr__ = new block
+        ptrs, szs = {}, {}
+        for b, i, e in f.elements():
+            if e[0] == "D":
+                for n, init in e[1]:
+                    if init is None:
+                        continue
+                    suffix = n.split("@")[1] if "@" in n else ""
+                    if n.startswith("__ptr__"):
+                        t = strip(init)
+                        if isinstance(t, list) and t and t[0] == "u" and t[1] == "&":
+                            inner = strip(t[2])
+                            if isinstance(inner, list) and inner and inner[0] == "m" and inner[2].split("::")[0].endswith("ILLlpdata"):
+                                ptrs[(e[2], suffix)] = inner[2].split("::")[1]
+                    elif n.startswith("__sz__"):
+                        szs[(e[2], suffix)] = init
+        for key, nm in ptrs.items():
+            if key in szs and nm not in ("rowsize", "colsize", "structsize"):
+                sites.append((f, nm, key[0], mentions(szs[key])))
+        for b, i, e in f.elements():
+            if e[0] != "A":
+                continue
+            lhs = strip(e[1][2])
+            if e[1][1] == "=" and isinstance(lhs, list) and lhs and lhs[0] == "m":
+                r = strip(e[1][3])
+                if isinstance(r, list) and r and r[0] == "m" and r[2].split("::")[1] in DIMS3:
+                    for cap in CAPS:
+                        if lhs[2].endswith(cap):
+                            capset[f.key].add((cap.split("::")[1], r[2].split("::")[1]))
+                    if lhs[2].split("::")[1] in DIMS3 and lhs[2].split("::")[0].endswith("ILLlpdata"):
+                        dimeq[f.key].add(frozenset((lhs[2].split("::")[1], r[2].split("::")[1])))
+                rec, nm = lhs[2].split("::")
+                if not rec.endswith("ILLlpdata") or nm in ("rowsize", "colsize", "structsize"):
+                    continue
+                rhs = e[1][3]
+                m = None
+                for nd in walk(rhs):
+                    if isinstance(nd, list) and nd and nd[0] == "c" and callee(nd) in ALLOC and nd[3]:
+                        m = set().union(*[mentions(a) for a in nd[3]])
+                r = strip(rhs)
+                if m is None and isinstance(rhs, list) and rhs and rhs[0] == "se":
+                    key = e[2].rsplit(":", 1)[0]
+                    m = set().union(*[mentions(x) for x in byloc.get(key, [])]) if byloc.get(key) else None
+                if m is None:
+                    continue
+                sites.append((f, nm, e[2], m))
+    governed = {}
+    for f, nm, loc, m in sites:
+        caps = {x[4:] for x in m if x.startswith("cap:")}
+        if len(caps) == 1:
+            governed.setdefault(nm, list(caps)[0])
+    res.counts["governed_arrays"] = {k: v for k, v in sorted(governed.items())}
+    callers = collections.defaultdict(set)
+    for f in prog.funcs.values():
+        if f.live is None:
+            continue
+        for b, i, c in f.calls():
+            if c[1] is None:
+                continue
+            g = prog.resolve(f, c[1])
+            if g is not None:
+                callers[g.key].add(f.key)
+    seen = set()
+    for f, nm, loc, m in sites:
+        cap = governed.get(nm)
+        if cap is None or (f.key, nm, loc) in seen:
+            continue
+        seen.add((f.key, nm, loc))
+        res.obligations += 1
+        dim = CAPS["ILLlpdata::" + cap]
+        if ("cap:" + cap) in m:
+            res.sample({"site": "%s %s: allocation of %s" % (short_loc(loc), f.name, nm), "verdict": "sized by %s" % cap}, limit=6)
+            continue
+        res.nontrivial += 1
+        setters = {f.key} | callers.get(f.key, set())
+        mdims = {x[4:] for x in m if x.startswith("dim:")}
+
+        def set_alongside(k):
+            for (c, d) in capset.get(k, ()):
+                if c == cap and (d in mdims or any(frozenset((d, d2)) in dimeq.get(k, ()) for d2 in mdims)):
+                    return True
+            return False
+        if (f.name, nm) in CAP_EXCEPT:
+            res.excepted.append(("%s: %s" % (f.name, nm), CAP_EXCEPT[(f.name, nm)]))
+            continue
+        if any(set_alongside(k) for k in setters):
+            res.sample({"site": "%s %s: allocation of %s" % (short_loc(loc), f.name, nm),
+                        "verdict": "sized by the count; %s is set to the count in this function or its caller" % cap}, limit=8)
+            continue
+        if not m:
+            continue          # length not expressed in problem dimensions at all (not decided here)
+        res.violations.append(Violation(rule, "%s|%s allocated without its capacity %s" % (f.name.replace("mpq_", ""), nm, cap), f.name, short_loc(loc),
+                                        "%s is allocated here with a length in terms of %s, but elsewhere it is (re)allocated with %s and the appending "
+                                        "edit functions write slot [%s] whenever %s < %s without re-allocating: a later append writes past this block" % (
+                                            nm, "/".join(sorted(x.split(":")[1] for x in m)) or "?", cap, dim, dim, cap)))
+    res.floor("arrays governed by a capacity field", len(governed), 10)
+    res.floor("allocation sites of governed arrays", res.obligations, 25)
+    return res
